@@ -728,7 +728,11 @@ def N2(vc):
         else:
             fractional = Not(is_integral(ra))
             vc.ensure('never_less_than_retry_after', d is not None and d >= ra, excuse={FINDING_RETRY_AFTER: fractional})
-            vc.ensure('retry_after_policy', Implies(Not(fractional), d is not None and Eq(d, If(Or(enforce, ra > b), ra, b))))
+            # the documented rule (settings.networking.enforce_retry_after): the server's value replaces the configured
+            # backoff when enforced or when it is longer; it may be rounded UP to whole seconds, never down
+            vc.ensure('retry_after_policy', d is not None and Implies(Or(enforce, ra > b), And(d >= ra, d < ra + 1)),
+                      excuse={FINDING_RETRY_AFTER: fractional})
+            vc.ensure('retry_after_policy', d is not None and Implies(Not(Or(enforce, ra > b)), Or(Eq(d, b), And(d >= ra, d < ra + 1))))
 
     def invariant(loc):
         ghost['phase'] += 1
